@@ -8,6 +8,7 @@ import (
 	"os"
 	"os/exec"
 	"path/filepath"
+	"runtime/pprof"
 	"sort"
 	"strconv"
 	"strings"
@@ -191,6 +192,10 @@ func check(id, tier string, seed int64, workers int, verbose bool, only string, 
 	if verbose {
 		fmt.Fprintf(os.Stderr, "loaded %d packages in %v\n", len(ld.prog.AllPackages()), ld.took)
 	}
+	if profPath != "" {
+		f, _ := os.Create(profPath)
+		pprof.StartCPUProfile(f)
+	}
 	cfg := &symgo.Config{Stubs: sp.Stubs, FreezeProperty: id}
 	workDir := filepath.Join(verifDir, ".work", id+"-"+tier)
 	os.RemoveAll(workDir)
@@ -248,7 +253,33 @@ func check(id, tier string, seed int64, workers int, verbose bool, only string, 
 		if verbose {
 			opts.Progress = func(s string) { fmt.Fprintln(os.Stderr, s) }
 		}
+		if verbose {
+			symgo.InitTrace = func(s string) { fmt.Fprintln(os.Stderr, "  "+s) }
+		}
+		opts.MaxPaths = devMaxPaths
+		if devDeadline > 0 {
+			opts.Deadline = time.Now().Add(devDeadline)
+		}
+		if os.Getenv("SYMGO_STEPPROFILE") != "" && workers == 1 {
+			symgo.StepProfile = map[string]int64{}
+		}
 		res := symgo.Explore(ld.prog, fn, args, cfg, opts)
+		if symgo.StepProfile != nil {
+			type kv struct {
+				k string
+				v int64
+			}
+			var kvs []kv
+			for k, v := range symgo.StepProfile {
+				kvs = append(kvs, kv{k, v})
+			}
+			sort.Slice(kvs, func(a, b int) bool { return kvs[a].v > kvs[b].v })
+			for k, e := range kvs {
+				if k < 45 {
+					fmt.Fprintf(os.Stderr, "  steps %10d  %s\n", e.v, e.k)
+				}
+			}
+		}
 		outs = append(outs, runOut{r, args, res})
 		totalPaths += res.Paths
 		totalDecisions += res.Decisions
@@ -271,9 +302,14 @@ func check(id, tier string, seed int64, workers int, verbose bool, only string, 
 			}
 			sort.Strings(ks)
 			fmt.Fprintln(os.Stderr, strings.Join(ks, "\n"))
+			seenP := map[string]bool{}
 			for _, p := range res.Poisoned {
-				fmt.Fprintln(os.Stderr, "   poisoned:", p)
+				if !seenP[p] && len(seenP) < 12 {
+					fmt.Fprintln(os.Stderr, "   poisoned:", p)
+				}
+				seenP[p] = true
 			}
+			fmt.Fprintf(os.Stderr, "   (%d distinct poisoned initialisers)\n", len(seenP))
 		}
 		for _, m := range res.Inconclusive {
 			inconclusive = append(inconclusive, r.Name+": "+m)
